@@ -82,6 +82,18 @@ def grammar_specs(gen_src):
     eois = eoi_names(gen_src)
     s = "pub open spec fn is_static_skip(t: Token) -> bool { %s }\n" % " || ".join("t == Token::%s" % n for n in skips)
     s += "pub open spec fn eoi_ok(t: Token) -> bool { %s }\n" % " || ".join("t == Token::%s" % n for n in eois)
+    # MarkTruncation::wfm links the saved fields THAT EXIST in the emitted struct to the ghost
+    # snapshots the contracts talk about.  If a refactoring drops a saved field, the link is simply
+    # absent and truncate() can no longer prove that it restores the snapshot (a failed obligation,
+    # not a lost anchor).
+    m = re.search(r"struct\s+MarkTruncation\s*\{([^}]*)\}", gen_src)
+    if not m:
+        raise Lost("struct MarkTruncation not found")
+    fields = re.findall(r"(\w+)\s*:", m.group(1))
+    links = []
+    if "non_skip_len" in fields:
+        links.append("self.non_skip_len == self.g_nsl@")
+    s += "impl MarkTruncation { pub open spec fn wfm(&self) -> bool { %s } }\n" % (" && ".join(links) or "true")
     return s, skips, eois
 
 
